@@ -253,8 +253,8 @@ fn compare_run(s: &mut Sess, map: &BTreeMap<u64, (Option<u64>, String)>, serial_
 
 pub fn property() -> Property {
     let families: Vec<Box<dyn Family>> = vec![
-        prop_family("serial-payloads", 100_000, 3_000_000, |_| prop::collection::vec(op(false), 1..80).prop_map(|ops| Hist { ops }), check),
-        prop_family("statement-payloads", 30_000, 1_000_000, |_| prop::collection::vec(op(true), 1..40).prop_map(|ops| Hist { ops }), check),
+        prop_family("serial-payloads", 300_000, 3_000_000, |_| prop::collection::vec(op(false), 1..80).prop_map(|ops| Hist { ops }), check),
+        prop_family("statement-payloads", 100_000, 1_000_000, |_| prop::collection::vec(op(true), 1..40).prop_map(|ops| Hist { ops }), check),
     ];
     Property {
         id: "C04",
